@@ -36,6 +36,21 @@ fn cases_presence(rng: &mut Rng, sink: &mut dyn FnMut(J) -> bool) {
     ];
     // wide objects: 1..40 hidden members / elements in one container, at several positions
     let mut special = special;
+    // repeated equal containers (consecutive equal objects / inner arrays, equal siblings; depth 1 and 2;
+    // under visible and hidden parents): each object its own decoys, all decoys of the credential distinct
+    let repeated = json!({
+        "iss": "i", "exp": FAR_EXP,
+        "twins": [{"k": 1}, {"k": 1}, {"k": 2}, {"k": 2}, {"k": 2}],
+        "rows": [[1, {"a": 1}], [1, {"a": 1}]],
+        "o": {"left": {"x": {"y": 1}}, "right": {"x": {"y": 1}}, "pair": [{"z": {}}, {"z": {}}]},
+        "hid": [{"in": [{"q": 1}, {"q": 1}]}, {"in": [{"q": 1}, {"q": 1}]}],
+        "empty": [{}, {}, [], []],
+        "deep": [[[{"d": 1}], [{"d": 1}]], [[{"d": 1}], [{"d": 1}]]],
+        "same_a": {"s": {"t": [1]}}, "same_b": {"s": {"t": [1]}}
+    });
+    for s in [Strategy::NoSD, Strategy::TopLevel, Strategy::Custom(vec!["$.hid[0]".into(), "$.hid[1]".into(), "$.o".into(), "$.same_a".into()]), Strategy::Custom(vec!["$.twins[0]".into()]), Strategy::AllLevels] {
+        special.push((repeated.clone(), s));
+    }
     // top-level members named like registered / commonly special-cased claims, holding OBJECT values
     // with nested objects: the strategy applies to them and each object carries a decoy
     let named = json!({
